@@ -125,9 +125,10 @@ def goData : Data GD where
 /-- the variables of `range $i, $enumTypeName := .Types` at type number `i` named `T` -/
 def typeEnv (i : Nat) (T : String) : Env GD := [(typeVar, .str T), (idxVar, .int i)]
 
-/-- executing one section for type number `i` -/
+/-- executing one section for type number `i`: inside `range $i, $enumTypeName := .Types` the variables are
+the index and the name, dot is the name, `$` the generator -/
 def renderSec (r : Root) (i : Nat) (T : String) (sec : List Node) : Option (List String) :=
-  render goData (.data (.root r)) (typeEnv i T) (prelude ++ sec)
+  renderList goData (typeEnv i T ++ [("$", .data (.root r))]) (.str T) (prelude ++ sec)
 
 /-! ### generic steps -/
 
@@ -440,6 +441,29 @@ theorem go_template_genFull (r : Root) (f : FileDef) (t : TypeDecl) (i : Nat) (g
   · exact go_render_accessor_eq r i t.name _ ts hv ht
   · exact go_render_string_eq r i t.name _ hv (sortedValues_u64 f t.name)
   · exact go_render_isValid_eq r i t.name _ hv
+
+/-! ### the range over the types -/
+
+@[simp] theorem gd_root_types (r : Root) :
+    goData.field (.root r) "Types" = some (.data (.typeNames r.types)) := by simp [goData]
+@[simp] theorem gd_elems_typeNames (l : List String) : goData.elems (.typeNames l) = some (l.map .str) := rfl
+
+/-- executing `{{range $i, $enumTypeName := .Types}} prelude section {{end}}` on the generator writes the
+section once per type, with `$i` / `$enumTypeName` the position and the name of the type: the per-type
+statements above are about exactly the executions the template performs -/
+theorem go_render_types (r : Root) (sec : List Node) (out : Nat → String → List String)
+    (h : ∀ i T, r.types[i]? = some T → renderSec r i T sec = some (out i T)) :
+    render goData (.data (.root r)) [] [.range (some idxVar) (some typeVar) typesExpr (prelude ++ sec) []]
+      = some (r.types.zipIdx.flatMap (fun p => out p.2 p.1)) := by
+  simp only [render, List.nil_append, renderList_range, typesExpr, evalExpr_field, evalExpr_dot, Option.bind_some,
+    fieldOf_data, gd_root_types, elemsOf_data, gd_elems_typeNames, renderList_nil, Option.map_some, List.append_nil]
+  rw [rangeLoop_eq _ (fun i x => match x with | .str T => out i T | _ => [])]
+  · simp [List.zipIdx_map, List.flatMap_map]
+  · intro i x hx
+    simp only [List.getElem?_map, Option.map_eq_some_iff] at hx
+    obtain ⟨T, hT, rfl⟩ := hx
+    simp only [Nat.zero_add]
+    exact h i T hT
 
 /-! ### reading the model's components back from the pieces written
 
